@@ -207,6 +207,11 @@ def check_pair(run, rule, struct, wfn, rfn, width_rule=None, label=None):
             run.ob(rule, k + ":mandatory", ok, wfn, w["line"],
                    "reader requires key %s and the writer always emits it" % nm if ok else
                    "reader rejects input without key %s but the writer emits it only under %s" % (nm, show_f(w["guard"])))
+        # time offsets: the 64-bit tick difference must go out through a 64-bit overload
+        if width_rule and wd and wd.get("time_offset") and wk in WIDTH:
+            run.ob(width_rule, k + ":width", WIDTH[wk] >= 64, wfn, w["line"],
+                   "the 64-bit tick offset is written with a 64-bit overload" if WIDTH[wk] >= 64 else
+                   "the tick offset (int64_t) is narrowed to %d bits on the way out: offsets above that range are truncated" % WIDTH[wk])
         # array elements: same width rule on the element expression
         if width_rule and wk0 == "ARRAY" and w["value"].elem is not None and w["value"].elem.kind in WIDTH:
             el = w["value"].elem
